@@ -319,6 +319,16 @@ def rule_r3(ctx, rid="C17.R3"):
     p = ctx.p
     cls = p.cls("buffers.OverflowableBuffer")
     n = 0
+    # the file view is the delegate's file as it stands - at the read position: handing it out is not an occasion to
+    # move it (a rewind makes the consumer read again what was consumed and desynchronises position and count)
+    gf = cls.methods.get("getfile")
+    if gf is None:
+        raise AnalysisError("anchor vanished: OverflowableBuffer.getfile")
+    moved = [c for c in ast.walk(gf.node) if isinstance(c, ast.Call) and isinstance(c.func, ast.Attribute) and c.func.attr in ("seek", "read", "readline", "readlines", "write", "truncate", "close", "flush")]
+    if moved:
+        ctx.r.violation(rid, key_of(gf, None, "getfile-moves-the-file"), "OverflowableBuffer.getfile calls %s on the file it hands out: the view no longer starts at the read position - consumed bytes are delivered again and the unread tail is cut off by the count" % norm(moved[0])[:40], gf.loc(moved[0]))
+    else:
+        ctx.r.ok(rid, "getfile hands out the delegate's file without touching it", gf.loc())
     for name, f in sorted(cls.methods.items()):
         if name in ("__init__", "prune"):
             continue
